@@ -1,6 +1,6 @@
 #!/bin/sh
 # Run once after a fresh restore, offline: warms the Go build cache by building
-# the checker against /repo (build tag verif).
+# the checkers against /repo (build tag verif), plain and with the overlay.
 set -u
 VERIF=${VERIF_ROOT:-/verif}
 export GOFLAGS=-mod=mod GOPROXY=off GOSUMDB=off GOTOOLCHAIN=local
@@ -11,3 +11,14 @@ cp /repo/go.sum go.sum
 go build -tags verif -o "$VERIF/.bin/check.setup" ./cmd/check || exit 1
 "$VERIF/.bin/check.setup" -list
 rm -f "$VERIF/.bin/check.setup"
+# the overlay builds (what bin/check.sh really runs)
+OV="$VERIF/.bin/ov.setup"
+rm -rf "$OV"; mkdir -p "$OV"
+if go run ./cmd/overlaygen -repo /repo -rt "$VERIF/mc/schedrt" -out "$OV" . band backend/joinserver backend applayer/clocksync applayer/multicastsetup applayer/fragmentation applayer/firmwaremanagement airtime gps > "$OV/gen.log" 2>&1; then
+  go build -tags verif -overlay "$OV/overlay.json" -o "$OV/check" ./cmd/check || echo "setup: overlay build of cmd/check failed"
+  go build -tags "verif sched" -overlay "$OV/overlay.json" -o "$OV/sched" ./cmd/schedcheck || echo "setup: overlay build of cmd/schedcheck failed"
+else
+  echo "setup: overlay generation failed"; tail -3 "$OV/gen.log"
+fi
+rm -rf "$OV"
+exit 0
